@@ -7,7 +7,8 @@ case = {
              datum: null | ['hash', hex32] | ['inline', hexcbor, form?], script: sid | null, chain: bool}],
   ops: [ ['input', uid] | ['sinput', uid, src, datum_hexcbor|null, rdm|null, form?] | ['mint', src, rdm|null]
        | ['wdrl', src, rdm|null] | ['cert', src, rdm|null] | ['addcert', {cred_script: bool, cred: hex28, pool: hex28}]
-       | ['outdatum', hexcbor, form?] ],   native: [sid, ...] (the native_scripts field),
+       | ['outdatum', hexcbor, form?, to_witness?] | ['coll', uid] (builder.collaterals.append)
+       | ['refin', uid] (builder.reference_inputs.add: a read-only reference input) ],   native: [sid, ...] (the native_scripts field),
          form = 'raw' (default: the datum is handed over as RawCBOR) | 'prim' (as the Python value a user would write:
                 int, bytes, dict, IndefiniteList / list, RawPlutusData around a constructor tag — so that 0, b'', {} and
                 empty lists reach the builder as FALSY objects) | 'pdata' (a constructor as an instance of a PlutusData
@@ -361,8 +362,15 @@ def handler(case, payload):
                 b.certificates.append(cert)
             elif k == 'outdatum':
                 d = mk_datum(op[1], op[2] if len(op) > 2 else 'raw')
-                b.add_output(TransactionOutput(mk_addr(True, 'ee' * 28, net), Value(2000000)), datum=d,
-                             add_datum_to_witness=True)
+                if len(op) > 3 and not op[3]:
+                    b.add_output(TransactionOutput(mk_addr(True, 'ee' * 28, net), Value(2000000)), datum=d)   # default: False
+                else:
+                    b.add_output(TransactionOutput(mk_addr(True, 'ee' * 28, net), Value(2000000)), datum=d,
+                                 add_datum_to_witness=True)
+            elif k == 'coll':
+                b.collaterals.append(utxos[op[1]])
+            elif k == 'refin':
+                b.reference_inputs.add(utxos[op[1]])
             elif k == 'native':
                 b.native_scripts = [scripts[s] for s in op[1]]
             else:
